@@ -109,10 +109,10 @@ func ruleDecoderBounds(c *Ctx, r *Report, prefix string) {
 		if g != nil {
 			bw := c.Func("lzma", "buffer.Write")
 			okDom := false
-			for _, b := range fn.Blocks {
+			for _, b := range theCtx.GB(fn) {
 				for _, ins := range b.Instrs {
 					if isCallTo(ins, bw) {
-						okDom = g.iff.Block().Dominates(b)
+						okDom = theCtx.Dom(g.iff.Block(), b)
 					}
 				}
 			}
@@ -218,11 +218,11 @@ func ruleDecoderBounds(c *Ctx, r *Report, prefix string) {
 		ok := guardB != nil
 		n := 0
 		if ok {
-			for _, b := range fn.Blocks {
+			for _, b := range theCtx.GB(fn) {
 				for _, ins := range b.Instrs {
 					if isCallTo(ins, readOp) || isCallTo(ins, apply) {
 						n++
-						if !(guardB == b || guardB.Dominates(b)) {
+						if !(guardB == b || theCtx.Dom(guardB, b)) {
 							ok = false
 						}
 					}
@@ -269,7 +269,7 @@ func ruleReaderWindow(c *Ctx, r *Report, prefix string) {
 		fHDC := c.Field("lzma", "header.dictCap")
 		minDC, _ := namedConstInt(c, "lzma", "MinDictCap")
 		okMax, okClamp := false, false
-		for _, b := range fn.Blocks {
+		for _, b := range theCtx.GB(fn) {
 			for _, ins := range b.Instrs {
 				if call, ok := callTo(ins, ndd); ok {
 					if x, y, isMax := phiIsMax(call.Call.Args[0]); isMax {
@@ -311,7 +311,7 @@ func ruleReaderWindow(c *Ctx, r *Report, prefix string) {
 		fFDC := c.Field("", "lzmaFilter.dictCap")
 		okMax, okInit, okUse := false, false, false
 		var cfgAlloc ssa.Value
-		for _, b := range fn.Blocks {
+		for _, b := range theCtx.GB(fn) {
 			for _, ins := range b.Instrs {
 				if st, ok := storeToField(ins, fCfg); ok {
 					if isFieldLoadOf(st.Val, fRC) {
